@@ -120,17 +120,21 @@ def prio(chk, fx):
     else:
         chk.violation("PRIO", A.site(f), "PRIO:mark_end_state", "mark_end_state does %s" % [(k[1], PS.show(v)) for k, v in actual.items()])
     f = first_inst(fx, R + "dfa_builder::merge")
-    cn = Canon(f)
-    loops = [n for n in walk(f.body) if n.get("k") in ("ForStmt", "WhileStmt") and
-             any(A.is_call(m) and m["callee"]["n"] == "mark_end_state" for m in walk(n))]
-    if len(loops) != 1:
+    # loop-form independent: the counter is an ordinary local whose values are numbered along the path (0, 0 + 1, ...),
+    # whether it is a for loop with a break or a while loop with the slot test in its condition
+    cn = Canon(f, uniform=True)
+    if not any(A.is_call(m) and m["callee"]["n"] == "mark_end_state" for m in walk(f.body)):
         chk.incomplete("merge: loop copying the priority slots not found")
-    actual, nodes = PS.event_conditions(cn, loops[0]["body"], events_of=calls_of("mark_end_state"), unroll=1, drop=_drop_noise)
+    actual, nodes = PS.event_conditions(cn, f.body, events_of=calls_of("mark_end_state"), unroll=2, versioned=True,
+                                        drop=lambda a: "conflicted_recognition" not in a)
     actual = {k: v for k, v in actual.items() if k[0] == "call"}
-    SLOT = "(sm[$1].conflicted_recognition[@i{0..4}] == uninitialized16)"
-    c = actual.get(("call", "mark_end_state(sm[$0], sm[$1].conflicted_recognition[@i{0..4}])"))
-    if c is not None and len(actual) == 1 and PS.equivalent(c, PS.dnf([(SLOT, False)])):
-        chk.ok("PRIO", A.site(f), "merge(to, from) appends from's terms, in slot order, after to's")
+    slot = lambda i: "(sm[$1].conflicted_recognition[%s] == uninitialized16)" % i
+    want = {("call", "mark_end_state(sm[$0], sm[$1].conflicted_recognition[0])"): PS.dnf([(slot("0"), False)]),
+            ("call", "mark_end_state(sm[$0], sm[$1].conflicted_recognition[(0 + 1)])"):
+                PS.dnf([(slot("0"), False), (slot("(0 + 1)"), False)])}
+    if set(actual) == set(want) and all(PS.equivalent(actual[k], want[k]) for k in want):
+        chk.ok("PRIO", A.site(f), "merge(to, from) appends from's terms, in slot order from slot 0, up to the first free "
+                                  "slot, after to's")
     else:
         chk.violation("PRIO", A.site(f), "PRIO:merge", "merge copies priorities as %s" % [(k[1], PS.show(v)) for k, v in actual.items()])
     f = first_inst(fx, R + "dfa_builder::alt")
